@@ -40,7 +40,7 @@ def parseOptName (t : String) : Option (Option (Option Name)) :=
   if t == "?" then some none else if t == "-" then some (some none) else some (some (some t))
 
 def parseTy (t : String) : Option Ty :=
-  match t with | "int" => some .int | "str" => some .str | "any" => some .any | _ => none
+  match t with | "int" => some .int | "str" => some .str | "any" => some .any | "dict" => some .dict | _ => none
 
 def parseDecl (t : String) : Option Decl :=
   match t.splitOn ":" with
@@ -144,7 +144,9 @@ def handle (d : DSt) (line : String) : DSt × String :=
         | none => "ok"
         | some e => "err " ++ e.name
       let st := if e.isNone then showState d c s else ""
-      (d, s!"{head} ;; {st} ;; {",".intercalate (s.trace.map showEv)}")
+      let wf := if wfCall d.env c then "1" else "0"
+      let gen := if allGenerated d.env c then "1" else "0"
+      (d, s!"wf={wf} gen={gen} {head} ;; {st} ;; {",".intercalate (s.trace.map showEv)}")
     | _, _ => (d, "bad-call")
   | _ => (d, "bad-op")
 
